@@ -10,7 +10,7 @@
 //! disappears only in a heartbeat, after `forget_channel` was acknowledged and a double-spend / mutual
 //! close / fully swept unilateral close is buried ≥ 100 blocks on the surviving chain; after a forget
 //! of an existing channel d no `new_channel(d' ≤ d)` creates a channel, also after restarts.
-use super::c14::world::{coinbase, mk_tx, panic_msg};
+use super::c14::world::{coinbase, deliver_add, deliver_remove, mk_tx, panic_msg};
 use crate::common::*;
 use lightning_signer::bitcoin::bip32::DerivationPath;
 use lightning_signer::bitcoin::{Block, Network, OutPoint, Transaction, Txid};
@@ -169,11 +169,10 @@ impl W15 {
         let mut tracker = node.get_tracker();
         let tip = tracker.tip().clone();
         let block = make_block(tip.0, txs);
-        let proof = TxoProof::prove_unchecked(&block, &tip.1, tracker.height() + 1);
-        match catch_unwind(AssertUnwindSafe(|| tracker.add_block(block.header, proof))) {
+        match catch_unwind(AssertUnwindSafe(|| deliver_add(&mut tracker, &block, false))) {
             Err(e) => format!("panic {}", panic_msg(e)),
             Ok(Err(e)) => format!("err {:?}", e),
-            Ok(Ok(())) => {
+            Ok(Ok(_)) => {
                 self.persister.update_tracker(&node.get_id(), &tracker).unwrap();
                 self.blocks.push(block);
                 self.chain.push(ids.to_vec());
@@ -186,9 +185,7 @@ impl W15 {
         let block = self.blocks.last().expect("malformed case: nothing to remove").clone();
         let node = self.node.clone();
         let mut tracker = node.get_tracker();
-        let prev = tracker.headers()[0].clone();
-        let proof = TxoProof::prove_unchecked(&block, &prev.1, tracker.height());
-        match catch_unwind(AssertUnwindSafe(|| tracker.remove_block(proof, prev))) {
+        match catch_unwind(AssertUnwindSafe(|| deliver_remove(&mut tracker, &block, false))) {
             Err(e) => format!("panic {}", panic_msg(e)),
             Ok(Err(e)) => format!("err {:?}", e),
             Ok(Ok(_)) => {
@@ -277,6 +274,25 @@ fn tokens() -> &'static BTreeMap<u64, String> {
 }
 fn tok(id: u64) -> String { tokens()[&id].clone() }
 
+/// execute an op on the generator's live node (results ignored)
+fn apply_basic(w: &mut W15, op: &str) {
+    let t: Vec<&str> = op.split_whitespace().collect();
+    match t.as_slice() {
+        ["new", d] => { let _ = w.new_channel(d.parse().unwrap()); }
+        ["setup", d] => { let _ = w.setup(d.parse().unwrap()); }
+        ["forget", d] => { let _ = w.node.forget_channel(&chan_id(d.parse().unwrap())); }
+        ["heartbeat"] => { let _ = w.node.get_heartbeat(); }
+        ["restart"] => w.restart(),
+        ["add", rest @ ..] => {
+            let ids: Vec<u64> = rest.iter().map(|tk| super::c14::world::parse_token_id(tk)).collect();
+            w.add_block(&ids);
+        }
+        ["addn", k] => { for _ in 0..k.parse::<u64>().unwrap() { w.add_block(&[]); } }
+        ["remove", ..] => { w.remove_block(); }
+        _ => {}
+    }
+}
+
 pub struct C15;
 
 impl Group for C15 {
@@ -288,7 +304,7 @@ impl Group for C15 {
          mutual close, unilateral close and sweep, runs of 90..110 empty blocks around MIN_DEPTH=100, reorgs of depth 1-3; \
          non-trivial = a forget of an existing channel followed by a new_channel attempt or a heartbeat at depth >= 95"
     }
-    fn budget(&self, tier: Tier) -> usize { if tier == Tier::Quick { 400 } else { 8000 } }
+    fn budget(&self, tier: Tier) -> usize { if tier == Tier::Quick { 300 } else { 3000 } }
     fn corpus(&self) -> Vec<Vec<String>> {
         let mk = |s: &str| -> Vec<String> {
             s.split('|').map(|x| {
@@ -308,30 +324,39 @@ impl Group for C15 {
         ]
     }
     fn gen_case(&self, rng: &mut Rng, tier: Tier) -> Vec<String> {
+        // the generator runs a live node alongside, so that blocks only carry transactions of channels
+        // that are ready at that moment (a monitor never meets its own funding tx in a block that was
+        // connected before the monitor existed, see notes: observation F18)
+        let mut w = W15::new();
         let mut ops = vec!["init".to_string()];
-        let mut conf: Vec<Vec<u64>> = Vec::new();
-        let mut ready: BTreeSet<u64> = BTreeSet::new();
-        let mut exists: BTreeSet<u64> = BTreeSet::new();
+        let mut push = |w: &mut W15, ops: &mut Vec<String>, op: String| {
+            apply_basic(w, &op);
+            ops.push(op);
+        };
         let steps = rng.range(5, if tier == Tier::Quick { 14 } else { 24 });
         let mut long_runs = 0;
         for _ in 0..steps {
             let d = rng.range(1, NCH);
             match rng.below(16) {
-                0 | 1 => { ops.push(format!("new {}", d)); exists.insert(d); }
+                0 | 1 => push(&mut w, &mut ops, format!("new {}", d)),
                 2 | 3 => {
-                    if !exists.contains(&d) { ops.push(format!("new {}", d)); exists.insert(d); }
-                    ops.push(format!("setup {}", d));
-                    ready.insert(d);
+                    if !w.has_channel(d) { push(&mut w, &mut ops, format!("new {}", d)); }
+                    push(&mut w, &mut ops, format!("setup {}", d));
                 }
-                4 | 5 => { ops.push(format!("forget {}", d)); if !ready.contains(&d) { exists.remove(&d); } }
-                6 | 7 => ops.push("heartbeat".into()),
-                8 => ops.push("restart".into()),
+                4 | 5 => {
+                    push(&mut w, &mut ops, format!("forget {}", d));
+                    // probes right after a forget
+                    if rng.chance(1, 2) { push(&mut w, &mut ops, "restart".into()); }
+                    push(&mut w, &mut ops, format!("new {}", rng.range(1, NCH + 1)));
+                }
+                6 | 7 => push(&mut w, &mut ops, "heartbeat".into()),
+                8 => push(&mut w, &mut ops, "restart".into()),
                 9 | 10 | 11 => {
-                    // a block with channel transactions
-                    let flat: Vec<u64> = conf.iter().flatten().cloned().collect();
+                    // a block with transactions of the channels that are ready now
+                    let flat: Vec<u64> = w.chain.iter().flatten().cloned().collect();
                     let has = |x: u64| flat.contains(&x);
                     let mut blk: Vec<u64> = Vec::new();
-                    for c in ready.iter().cloned() {
+                    for c in w.ready_set() {
                         let inb = |b: &Vec<u64>, x: u64| b.contains(&x);
                         let mut cand = Vec::new();
                         if !has(fid(c)) && !has(did(c)) && !inb(&blk, did(c)) { cand.push(fid(c)); }
@@ -342,34 +367,21 @@ impl Group for C15 {
                     }
                     let mut l = "add".to_string();
                     for x in &blk { l.push(' '); l.push_str(&tok(*x)); }
-                    ops.push(l);
-                    conf.push(blk);
+                    push(&mut w, &mut ops, l);
                 }
                 12 | 13 => {
-                    if long_runs < 2 {
-                        long_runs += 1;
-                        let k = *rng.pick(&[90u64, 98, 99, 100, 101, 110]);
-                        ops.push(format!("addn {}", k));
-                        for _ in 0..k { conf.push(vec![]); }
-                    } else {
-                        ops.push("addn 3".into());
-                        for _ in 0..3 { conf.push(vec![]); }
-                    }
+                    let k = if long_runs < 2 { long_runs += 1; *rng.pick(&[90u64, 98, 99, 100, 101, 110]) } else { 3 };
+                    push(&mut w, &mut ops, format!("addn {}", k));
                 }
                 _ => {
-                    let k = rng.range(1, 3).min(conf.len() as u64);
+                    let k = rng.range(1, 3).min(w.chain.len() as u64);
                     for _ in 0..k {
-                        let blk = conf.pop().unwrap();
+                        let blk = w.chain.last().unwrap().clone();
                         let mut l = "remove".to_string();
                         for x in &blk { l.push(' '); l.push_str(&tok(*x)); }
-                        ops.push(l);
+                        push(&mut w, &mut ops, l);
                     }
                 }
-            }
-            // probes right after a forget
-            if ops.last().map(|l| l.starts_with("forget")).unwrap_or(false) {
-                if rng.chance(1, 2) { ops.push("restart".into()); }
-                ops.push(format!("new {}", rng.range(1, NCH + 1)));
             }
         }
         ops.push("heartbeat".into());
@@ -454,6 +466,7 @@ impl Group for C15 {
             };
             if res.starts_with("panic") {
                 dead = true;
+                co.tags.insert(format!("abort:{}:{}", t[0], res.chars().take(90).collect::<String>()));
                 co.violations.push(Violation { kind: "abort".into(), desc: format!("{} panicked: {}", op, res), at: i });
                 co.out.push("panic".into());
                 continue;
